@@ -381,6 +381,29 @@ void add_tuples()
     });
 }
 
+// pair with reference members: swap exchanges the referenced objects, copies alias, relations read through
+void add_pair_refs()
+{
+    add_family("pair.ref_elements<ir,ir>", "pair.ops", 9, 9, []<class L>(int x, int y) {
+        int a = x / 3, b = x % 3, c = y / 3, d = y % 3;
+        using P = typename L::template pair<int&, int&>;
+        P p{a, b}, q{c, d};
+        Out o;
+        o << rels(p, q);
+        p.swap(q);
+        o << " member swap: a,b,c,d=" << a << b << c << d;
+        L::swap(p, q);
+        o << " free swap: " << a << b << c << d;
+        P cp{p};
+        cp.first = 7;
+        typename L::template pair<int, long> conv{p}; // converting copy from references: values
+        P mv{std::move(q)};
+        mv.second = 8;
+        o << " alias writes: " << a << b << c << d << " conv" << show_pair(conv) << " aliases:" << (&cp.first == &a) << (&mv.second == &d);
+        return o.s;
+    }, +[](int x, int y) { return x != y; });
+}
+
 void build()
 {
     static bool done = false;
@@ -393,6 +416,7 @@ void build()
     add_pair_ops<TCO, TCO>();
     add_pair_ops<TCM, int>();
     add_tuples();
+    add_pair_refs();
 }
 
 } // namespace
